@@ -68,6 +68,26 @@ func (i *Index) Search(key types.Key) (BlockHandle, bool) {
 	return BlockHandle{}, false
 }
 
+// SearchLowerBound returns the first data block that can contain the lower bound of key,
+// i.e. the first block whose EndKey >= key. A versioned target key@ts is normally not a
+// stored key and sorts before every stored version <= ts of its user key, so it may fall
+// before the first block or between two blocks, where Search finds nothing.
+func (i *Index) SearchLowerBound(key types.Key) (BlockHandle, bool) {
+	low, high := 0, len(i.Entries)
+	for low < high {
+		mid := low + ((high - low) >> 1)
+		if types.CompareKeys(i.Entries[mid].EndKey, key) < 0 {
+			low = mid + 1
+		} else {
+			high = mid
+		}
+	}
+	if low == len(i.Entries) {
+		return BlockHandle{}, false
+	}
+	return i.Entries[low].DataHandle, true
+}
+
 func (i *Index) Scan(start, end types.Key) []BlockHandle {
 	var res []BlockHandle
 	for _, entry := range i.Entries {
